@@ -27,6 +27,12 @@ class WireAxis(C.Axis):
             return a[0] == k and a[1] == SEL
         raise AssertionError(kind)
 
+    def asked(self, e, p):
+        """wire cells element e is tabulated from: for a multiple-response item its own three planes (every respondent appears
+        once per item in the tensor), no restriction for categories"""
+        kind, k = self.elems[e]
+        return p[self.vi][0] == k if kind == "item" else True
+
     def valid(self, e, p, other=None):
         kind, k = self.elems[e]
         a = p[self.vi]
